@@ -215,7 +215,8 @@ impl<L: Language> NthChild<L> {
       parent
         .children()
         .filter(|n| n.is_named())
-        .filter_map(|child| rule.match_node_with_env(child, env))
+        // keep the child itself: a relational rule returns the related node, not the child
+        .filter(|child| rule.match_node_with_env(child.clone(), env).is_some())
         .collect()
     } else {
       parent.children().filter(|n| n.is_named()).collect()
